@@ -25,26 +25,35 @@ class HarnessError(Exception):
 # quantisable virtual clock (tools/build_sysroot.py).  None = stock Miri sysroot (fallback: coarse-clock
 # runs are then skipped and a NOTE is printed).
 SYSROOT = None
+# Big-endian lane: the same patched library built for s390x; Miri interprets that target's MIR on this host.
+BE_TARGET = "s390x-unknown-linux-gnu"
+SYSROOT_BE = None
 
 
 def ensure_sysroot():
-    global SYSROOT
-    p = subprocess.run([sys.executable, os.path.join(VERIF, "tools", "build_sysroot.py")], capture_output=True, text=True, timeout=1800)
+    global SYSROOT, SYSROOT_BE
+    tool = os.path.join(VERIF, "tools", "build_sysroot.py")
+    p = subprocess.run([sys.executable, tool], capture_output=True, text=True, timeout=1800)
     if p.returncode == 0 and os.path.isdir(p.stdout.strip()):
         SYSROOT = p.stdout.strip()
     else:
         SYSROOT = None
+    q = subprocess.run([sys.executable, tool, "--target", BE_TARGET], capture_output=True, text=True, timeout=1800)
+    SYSROOT_BE = q.stdout.strip() if q.returncode == 0 and os.path.isdir(q.stdout.strip()) else None
     return SYSROOT, (p.stderr or "").strip()[-500:]
 
 
-def env_for(miriflags):
+def env_for(miriflags, target=None):
     env = dict(os.environ)
     env["MIRIFLAGS"] = " ".join(miriflags)
     env["CARGO_NET_OFFLINE"] = "true"
     env.pop("RUSTFLAGS", None)
     env.pop("CARGO_TARGET_DIR", None)
     env.pop("MIRI_SYSROOT", None)
-    if SYSROOT:
+    if target:
+        env["MIRI_SYSROOT"] = SYSROOT_BE
+        env["CARGO_TARGET_DIR"] = "target-patched-be"
+    elif SYSROOT:
         env["MIRI_SYSROOT"] = SYSROOT
         env["CARGO_TARGET_DIR"] = "target-patched"  # relative to the crate dir (cwd): never mix artefacts of two sysroots
     return env
@@ -52,7 +61,7 @@ def env_for(miriflags):
 
 def miriflags(seed, preempt, extra=(), clockq=0):
     f = [f"-Zmiri-seed={seed}", f"-Zmiri-preemption-rate={preempt}"] + BASE_FLAGS + list(extra)
-    if clockq and SYSROOT:
+    if clockq and (SYSROOT or SYSROOT_BE):
         f.append(f"-Zmiri-env-set=VERIF_CLOCK_QUANTUM_NS={int(clockq)}")  # coarse simulated clock
     return f
 
@@ -70,6 +79,11 @@ def build(sim_dir=SIM_DIR):
                            cwd=sim_dir, env=env_for(miriflags(0, 0)), capture_output=True, text=True, timeout=1800)
         if p.returncode != 0 or "c19_sim built" not in p.stdout:
             raise HarnessError(f"build of the simulation harness ({'release' if prof else 'dev'} profile) failed:\n" + p.stdout[-2000:] + p.stderr[-6000:])
+    if SYSROOT_BE:
+        p = subprocess.run(["cargo", "+nightly", "miri", "run", "-q", "--offline", "--target", BE_TARGET, "--", "--build-only"],
+                           cwd=sim_dir, env=env_for(miriflags(0, 0), BE_TARGET), capture_output=True, text=True, timeout=1800)
+        if p.returncode != 0 or "c19_sim built" not in p.stdout:
+            raise HarnessError(f"build of the simulation harness for {BE_TARGET} failed:\n" + p.stdout[-2000:] + p.stderr[-6000:])
     return time.time() - t0
 
 
@@ -159,12 +173,14 @@ def run_job(job, sim_dir=SIM_DIR, repo_marker=REPO, timeout_factor=10.0, cancel=
     """Execute one simulated run in a fresh process.  Returns a result dict:
     {status: ok|ub|deadlock|harness|timeout, log, stderr, wall, ...}."""
     flags = flags_of(job)
-    cmd = ["cargo", "+nightly", "miri", "run", "-q", "--offline"] + (["--release"] if job.get("release") else []) + ["--"] + argv_of(job)
+    tgt = job.get("target")
+    cmd = (["cargo", "+nightly", "miri", "run", "-q", "--offline"] + (["--release"] if job.get("release") else [])
+           + (["--target", tgt] if tgt else []) + ["--"] + argv_of(job))
     tmo = max(180.0, timeout_factor * predicted_cost(job))
     t0 = time.time()
     if cancel is not None and cancel.is_set():
         return {"status": "cancelled", "wall": 0.0, "log": "", "stderr": "", "cmd": cmd, "flags": flags}
-    p = subprocess.Popen(cmd, cwd=sim_dir, env=env_for(flags), stdout=subprocess.PIPE, stderr=subprocess.PIPE, start_new_session=True)
+    p = subprocess.Popen(cmd, cwd=sim_dir, env=env_for(flags, tgt), stdout=subprocess.PIPE, stderr=subprocess.PIPE, start_new_session=True)
     with _LIVE_LOCK:
         _LIVE.add(p)
     try:
